@@ -22,6 +22,7 @@ PROP = {
         "'[*]' or '[0]' inside a body path are not generated (never matched by the implementation, not documented)",
         "the HAR collector is driven through harcollector.NewProcessor/Execute on the repository's mock API stream; the exported record is "
         "captured through contextmanager.WithFileExporter",
+        "half of the collector cases vary the transport: transaction_max_size_bytes (2^30, 4096, 256, 48), declared content-length (absent, honest, understated), gzip content-encoding; a transaction the collector drops because its declared size exceeds the limit exposes nothing and is counted, not judged",
     ],
     "units": [
         {"pkg": "c16", "test": "TestObfuscateJSONCursor", "quick": 20000, "thorough": 150000, "shards": 16},
